@@ -76,18 +76,34 @@ def audit_sources():
     return bad
 
 
-def ensure_built(ctx=None, jobs=16):
-    """Full .vo build of the development (no -vos).  Serialised by a file lock."""
+def gen_coqproject():
+    """_CoqProject lists every .v under Base/ Model/ Proofs/ Properties/ (regenerated when the set changes)."""
+    files = []
+    for d in ("Base", "Model", "Proofs", "Properties"):
+        files += sorted(os.path.relpath(f, COQ) for f in glob.glob(os.path.join(COQ, d, "*.v")))
+    txt = "-R . PV\n" + "\n".join(files) + "\n"
+    cp = os.path.join(COQ, "_CoqProject")
+    if not os.path.exists(cp) or open(cp).read() != txt:
+        with open(cp, "w") as fh:
+            fh.write(txt)
+        return True
+    return False
+
+
+def ensure_built(ctx=None, jobs=16, targets=None):
+    """Full .vo build (no -vos) of the targets and everything they depend on.  Serialised by a file lock.
+    targets: list like ['Properties/C09.vo']; None = the whole development."""
     os.makedirs(GEN, exist_ok=True)
     lock = open(os.path.join(VERIF, ".lock"), "w")
     fcntl.flock(lock, fcntl.LOCK_EX)
     try:
         mk = os.path.join(COQ, "Makefile")
-        cp = os.path.join(COQ, "_CoqProject")
-        if not os.path.exists(mk) or os.path.getmtime(mk) < os.path.getmtime(cp):
+        changed = gen_coqproject()
+        if changed or not os.path.exists(mk):
             subprocess.run(["coq_makefile", "-f", "_CoqProject", "-o", "Makefile"], cwd=COQ, check=True, stdout=subprocess.DEVNULL)
         t = time.time()
-        p = subprocess.run(["timeout", "1800", "make", "-j%d" % jobs], cwd=COQ, stdout=subprocess.PIPE, stderr=subprocess.STDOUT, text=True)
+        cmd = ["timeout", "2400", "make", "-j%d" % jobs] + (targets or [])
+        p = subprocess.run(cmd, cwd=COQ, stdout=subprocess.PIPE, stderr=subprocess.STDOUT, text=True)
         if ctx is not None and time.time() - t > 5:
             ctx.log("coq make took %.0fs" % (time.time() - t))
         return p.returncode == 0, p.stdout[-4000:]
@@ -115,8 +131,8 @@ def check_property_file(ctx, fname=None):
     every theorem in it is audited with Print Assumptions against the stdlib allow-list."""
     pid = ctx.pid
     fname = fname or os.path.join(COQ, "Properties", pid + ".v")
-    ok, out = ensure_built(ctx)
-    ctx.checker_cmds.append("cd /verif/coq && coq_makefile -f _CoqProject -o Makefile && make -j16 && coqc -R . PV Properties/%s.v" % pid)
+    ok, out = ensure_built(ctx, targets=["Model/CaseUtil.vo", "Properties/%s.vo" % pid])
+    ctx.checker_cmds.append("cd /verif/coq && coq_makefile -f _CoqProject -o Makefile && make -j16 Properties/%s.vo && coqc -R . PV Properties/%s.v" % (pid, pid))
     if not ok:
         ctx.obligation("coq_build", False, out)
         return False
